@@ -34,6 +34,8 @@ type c12Case struct {
 	Cap      []string `json:"cap"`
 	Siblings []string `json:"siblings"`
 	What     string   `json:"what"`
+	// LeafOffsets: leaf position -> k; the element is supplied as value + k*p (non-canonical encoding)
+	LeafOffsets map[int]string `json:"leaf_offsets_multiple_of_p,omitempty"`
 	// BitValues overrides index bits by arbitrary field elements (decimal), position -> value
 	BitValues map[int]string `json:"index_bit_values,omitempty"`
 	// Backend "" = evaluation engine; "r1cs" / "scs" = the gadget compiled with gnark's builder and solved
@@ -95,6 +97,9 @@ func c12NonBoolean(c c12Case) bool {
 func c12Run(c c12Case) caseResult {
 	var in []*big.Int
 	in = append(in, u64s(c.Leaf)...)
+	for i, k := range c.LeafOffsets {
+		in[i] = new(big.Int).Add(in[i], new(big.Int).Mul(bs(k), bigP))
+	}
 	for i, b := range c.Bits {
 		if v, ok := c.BitValues[i]; ok {
 			in = append(in, bs(v))
@@ -107,7 +112,7 @@ func c12Run(c c12Case) caseResult {
 	}
 	in = append(in, unstrs(c.Cap)...)
 	in = append(in, unstrs(c.Siblings)...)
-	exp := !c12NonBoolean(c) && c12Expected(c)
+	exp := !c12NonBoolean(c) && len(c.LeafOffsets) == 0 && c12Expected(c)
 	if c.Backend != "" {
 		kind := cs.R1CS
 		if c.Backend == "scs" {
@@ -189,13 +194,17 @@ func genMerkleCase() *rapid.Generator[c12Case] {
 		for _, s := range sib {
 			c.Siblings = append(c.Siblings, hstr(s))
 		}
-		kinds := []string{"honest", "leaf-element", "leaf-element", "sibling", "index-bit", "cap-index-bit", "selected-cap-entry", "unselected-cap-entry", "wrong-cap-slot", "leaf-length", "index-bit-not-boolean", "cap-index-bit-not-boolean", "forged-bit-and-sibling", "forged-bit-and-sibling"}
+		kinds := []string{"honest", "leaf-element", "leaf-element", "sibling", "index-bit", "cap-index-bit", "selected-cap-entry", "unselected-cap-entry", "wrong-cap-slot", "leaf-length", "index-bit-not-boolean", "cap-index-bit-not-boolean", "forged-bit-and-sibling", "forged-bit-and-sibling", "leaf-element-plus-kp"}
 		c.What = rapid.SampledFrom(kinds).Draw(t, "corruption")
 		switch c.What {
 		case "leaf-element":
 			i := rapid.IntRange(0, w-1).Draw(t, "i")
 			c.Leaf = append([]uint64{}, leaf...)
 			c.Leaf[i] = ref.Add(leaf[i], rapid.SampledFrom([]uint64{1, ref.P - 1, 1 << 32}).Draw(t, "delta"))
+		case "leaf-element-plus-kp":
+			// the same field element in another integer encoding: the gadget binds the values it is given
+			// (canonical form is enforced elsewhere, C17), so a different integer is a different leaf
+			c.LeafOffsets = map[int]string{rapid.IntRange(0, w-1).Draw(t, "i"): rapid.SampledFrom([]string{"1", "1", "2", "4294967296"}).Draw(t, "k")}
 		case "leaf-length":
 			if rapid.Bool().Draw(t, "grow") || w == 1 {
 				c.Leaf = append(append([]uint64{}, leaf...), 0)
@@ -319,7 +328,7 @@ func TestC12(t *testing.T) {
 	s := newSuite("C12")
 	r := s.r
 	defer r.Flush()
-	r.Rule("synthetic trees: height 4..12 (index bits), random leaves of width 1..140 (1 in 4 of width 1..4 to hit the <=3-element shortcut), random/edge indices, random sibling hashes, root placed in the cap slot given by the top four bits; then one corruption drawn from {none, leaf element, leaf length, sibling, index bit (= swapped left/right order at that level), cap-index bit, one index or cap-index bit replaced by a value outside {0,1}, a forged pair (a leaf that is not in the tree together with one sibling and one non-boolean index 'bit' chosen so that a linear left/right selection reproduces the honest pair; engine and the gadget compiled to R1CS / SCS), selected cap entry, unselected cap entry (must still accept), root moved to a wrong cap slot}; plus real openings of the corpus proofs (4 initial trees + 2 fold steps per query round) with and without a corrupted leaf element.  Oracle: ACCEPT <=> reference recomputation equals the selected cap entry.  Non-trivial = any corruption or a real opening; distinct = full case.")
+	r.Rule("synthetic trees: height 4..12 (index bits), random leaves of width 1..140 (1 in 4 of width 1..4 to hit the <=3-element shortcut), random/edge indices, random sibling hashes, root placed in the cap slot given by the top four bits; then one corruption drawn from {none, leaf element, leaf length, sibling, index bit (= swapped left/right order at that level), cap-index bit, one index or cap-index bit replaced by a value outside {0,1}, a leaf element re-encoded as value + k*p, a forged pair (a leaf that is not in the tree together with one sibling and one non-boolean index 'bit' chosen so that a linear left/right selection reproduces the honest pair; engine and the gadget compiled to R1CS / SCS), selected cap entry, unselected cap entry (must still accept), root moved to a wrong cap slot}; plus real openings of the corpus proofs (4 initial trees + 2 fold steps per query round) with and without a corrupted leaf element.  Oracle: ACCEPT <=> reference recomputation equals the selected cap entry.  Non-trivial = any corruption or a real opening; distinct = full case.")
 	r.Assume("reference PoseidonBN128 (C10)")
 	s.on("merkle", func(b json.RawMessage) caseResult {
 		c := unmarshal[c12Case](b)
